@@ -59,6 +59,7 @@ fn main() {
             fen::run(&mut out, &mut rng, n, seeds)
         }
         "builder" => fen::builders(&mut out, &mut rng, n),
+        "book" => chess::book(&mut out),
         "replay" => {
             let line = args.get(2).cloned().unwrap_or_default();
             let f: Vec<&str> = line.split('\t').collect();
@@ -71,6 +72,7 @@ fn main() {
                 "TR" => tracing::replay(&mut out, &f),
                 "PO" | "MV" | "CK" | "LG" => chess::replay(&mut out, &f),
                 "FP" | "BL" => fen::replay(&mut out, &f),
+                "BK" | "BKS" => chess::book(&mut out),
                 k => {
                     eprintln!("replay: unknown kind {k}");
                     std::process::exit(2)
